@@ -130,10 +130,10 @@ func ruleServerID(c *Ctx, prefix string) {
 		siNil := regexp.MustCompile(`^\$0\.ServerIPAddr$`)
 		siZero := regexp.MustCompile(`^\(net\.IP\)\.Equal\(\$0\.ServerIPAddr,net\.IPv4zero\)$`)
 		siOwn := regexp.MustCompile(`^\(net\.IP\)\.Equal\((\$0\.ServerIPAddr,` + own + `|` + own + `,\$0\.ServerIPAddr)\)$`)
-		o54 := `(\(\*` + reQ(pkgDHCP4) + `\.DHCPv4\)\.ServerIdentifier(@t\d+)?\(\$0\)|\(` + reQ(pkgDHCP4) + `\.Options\)\.Get(@t\d+)?\(\$0\.Options,[^)]*\)|\(\*` + reQ(pkgDHCP4) + `\.DHCPv4\)\.GetOneOption(@t\d+)?\(\$0,[^)]*\))`
+		o54 := `(\(\*` + reQ(pkgDHCP4) + `\.DHCPv4\)\.ServerIdentifier(@(?:[\w$]+·)?t\d+)?\(\$0\)|\(` + reQ(pkgDHCP4) + `\.Options\)\.Get(@(?:[\w$]+·)?t\d+)?\(\$0\.Options,[^)]*\)|\(\*` + reQ(pkgDHCP4) + `\.DHCPv4\)\.GetOneOption(@(?:[\w$]+·)?t\d+)?\(\$0,[^)]*\))`
 		o54Nil := regexp.MustCompile(`^` + o54 + `$`)
 		o54Own := regexp.MustCompile(`^(\(net\.IP\)\.Equal|bytes\.Equal)\((` + o54 + `,` + own + `|` + own + `,` + o54 + `)\)$`)
-		o54Has := regexp.MustCompile(`^\(` + reQ(pkgDHCP4) + `\.Options\)\.Has(@t\d+)?\(\$0\.Options,[^)]*\)$`)
+		o54Has := regexp.MustCompile(`^\(` + reQ(pkgDHCP4) + `\.Options\)\.Has(@(?:[\w$]+·)?t\d+)?\(\$0\.Options,[^)]*\)$`)
 		uninit := regexp.MustCompile(`^` + own + `$`)
 		boot := c.P.mustConst(c.R, pkgDHCP4, "OpcodeBootRequest")
 		ex.Hooks.Label = func(st *State, in ssa.Instruction) string {
